@@ -27,7 +27,7 @@ BUDGETS = {
     "C13": {"quick": {"procs": 32, "runs": 20}, "thorough": {"procs": 192, "runs": 150}},
     "C14": {"quick": {"procs": 32, "runs": 15}, "thorough": {"procs": 256, "runs": 120}},
     "C15": {"quick": {"procs": 32, "runs": 25}, "thorough": {"procs": 256, "runs": 250}},
-    "C16": {"quick": {"procs": 32, "runs": 10}, "thorough": {"procs": 256, "runs": 80}},
+    "C16": {"quick": {"procs": 32, "runs": 24}, "thorough": {"procs": 256, "runs": 120}},
     "C17": {"quick": {"procs": 32, "runs": 12}, "thorough": {"procs": 192, "runs": 80}},
 }
 
